@@ -73,3 +73,16 @@ func (s *StateMachine) VerifC05SaveStep2(meta SSMeta) (pb.Snapshot, SSEnv, error
 	}
 	return s.doSave(meta)
 }
+
+// VerifC05MuFree reports whether s.mu could be write-locked right now, i.e.
+// nobody — in particular not a snapshot save running on the calling goroutine —
+// holds it. Used by the harness from inside the user's PrepareSnapshot to find
+// out whether the save fixes index / sessions / state machine image under the
+// lock (then an Update cannot run and the harness must not try: it would deadlock).
+func (s *StateMachine) VerifC05MuFree() bool {
+	if s.mu.TryLock() {
+		s.mu.Unlock()
+		return true
+	}
+	return false
+}
